@@ -107,6 +107,20 @@ def instances(tier):
     quick = tier == "quick"
     seed = int(os.environ.get("VERIF_SEED", "0"))
     out = []
+    if os.environ.get("C11_SELFTEST"):
+        # self-test of the harness (NOT part of any tier): seeded bugs that must be reported as VIOLATIONs
+        return [("gaussian", {"n": 4, "d": 2, "bias": 0, "parts": "all", "selftest_mutant": "mean_weight"}),
+                ("gaussian", {"n": 4, "d": 2, "bias": 0, "parts": "all", "selftest_mutant": "cov_k"}),
+                ("gmrf", {"graph": "chain3", "mode": "concatenation", "sparse": True, "bias": 0, "k": 1,
+                          "parts": [3, 1, 1], "inv": "uf", "selftest_mutant": "cov_k"}),
+                ("gmrf", {"graph": "edge", "mode": "subtraction", "sparse": False, "bias": 0, "k": 2,
+                          "parts": [3, 2], "inv": "cof", "selftest_mutant": "mean_weight"}),
+                ("gmrf", {"graph": "cycle3", "mode": "concatenation", "sparse": False, "bias": 0, "k": 1,
+                          "parts": [3, 1, 1], "inv": "cof", "selftest_mutant": "precision_entry"}),
+                ("gmrf", {"graph": "cycle3", "mode": "concatenation", "sparse": False, "bias": 0, "k": 1,
+                          "parts": [3, 1, 1], "inv": "uf", "selftest_mutant": "precision_entry"}),
+                ("pca_counts", {"n0": 3, "d": 2, "centre": True, "incs": [2], "inplace": False,
+                                "selftest_mutant": "ipca_mean"})]
     # ---- gaussian increments, every composition
     for bias in (0, 1):
         for d in (1, 2):
@@ -120,24 +134,35 @@ def instances(tier):
                 out.append(("gaussian", {"n": n, "d": 2, "bias": bias, "parts": ps}))
     # ---- GMRF end to end
     #  concatenation: 1 feature per vertex (2x2 covariances); subtraction and edgeless graphs need 2 features
-    #  per vertex (with one, menpo cannot build the batch model either, see META.not_covered)
+    #  per vertex (with one, menpo cannot build even the batch model, see META.not_covered).
+    #  Two encodings of the covariance inverse: "cof" = the engine's cofactor inverse (precision entries are
+    #  explicit rational functions; all data symbolic where that stays small, otherwise the initial batch is
+    #  concrete and the increments symbolic), "uf" = uninterpreted function of the covariance, all data symbolic.
     gq = ["isolated2", "edge", "chain3", "cycle3", "tree3"]
     gt = gq + ["isolated3", "chain3r", "tree3b", "dchain3", "dcycle3", "chain4", "cycle4", "tree4", "star4"]
     for g in (gq if quick else gt):
-        edgeless = GRAPHS[g][1] is None
+        edges, nv = GRAPHS[g][1], GRAPHS[g][2]
+        edgeless = edges is None
         for mode in (("concatenation",) if edgeless else ("concatenation", "subtraction")):
             k = 2 if (edgeless or mode == "subtraction") else 1
+            small = edgeless or len(edges) == 1 or (k == 1 and nv == 3)
             for sparse in (False, True):
                 for bias in (0, 1):
-                    if quick and g in ("chain3", "tree3") and bias == 1 and not sparse:
+                    base = {"graph": g, "mode": mode, "sparse": sparse, "bias": bias, "k": k}
+                    if not (quick and bias == 1 and not sparse):
+                        out.append(("gmrf", dict(base, parts=[3, 1, 1] if quick else "some", inv="uf")))
+                    if quick and bias == 1 and sparse and not small:
                         continue
-                    out.append(("gmrf", {"graph": g, "mode": mode, "sparse": sparse, "bias": bias, "k": k,
-                                         "parts": [3, 1, 1] if quick else "some"}))
-    # single edge with two features per vertex in concatenation mode (4x4 covariance of symbolic data)
-    if not quick:
-        for sparse in (False, True):
-            out.append(("gmrf", {"graph": "edge", "mode": "concatenation", "sparse": sparse, "bias": 0, "k": 2,
-                                 "parts": [5, 1], "conc0": True}))
+                    cof = dict(base, parts=[3, 1, 1] if (quick or not small) else "some", inv="cof")
+                    if not small:
+                        cof["conc0"] = 3
+                    out.append(("gmrf", cof))
+    # single edge with two features per vertex in concatenation mode (4x4 covariance)
+    for sparse in ((True,) if quick else (False, True)):
+        out.append(("gmrf", {"graph": "edge", "mode": "concatenation", "sparse": sparse, "bias": 0, "k": 2,
+                             "parts": [5, 1, 1], "inv": "uf"}))
+        out.append(("gmrf", {"graph": "edge", "mode": "concatenation", "sparse": sparse, "bias": 0, "k": 2,
+                             "parts": [5, 1], "inv": "cof", "conc0": 5}))
     # Vectorizable-backed model (PointCloud samples)
     out.append(("gmrf_model", {"graph": "edge", "mode": "concatenation", "sparse": True, "bias": 0, "parts": [5, 1, 1]}))
     # ---- PCA sample count and mean
@@ -145,11 +170,14 @@ def instances(tier):
         for (n0, d) in ((2, 3), (3, 2)) if quick else ((2, 3), (3, 2), (2, 2), (4, 2), (3, 3)):
             for parts in ([[1]] if quick else [[1], [2]]):
                 out.append(("pca_counts", {"n0": n0, "d": d, "centre": centre, "incs": parts, "inplace": False}))
-    out.append(("pca_counts", {"n0": 3, "d": 2, "centre": True, "incs": [1, 1], "inplace": True}))
+    out.append(("pca_counts", {"n0": 3, "d": 2, "centre": False, "incs": [1, 1], "inplace": True}))
     if not quick:
-        out.append(("pca_counts", {"n0": 2, "d": 3, "centre": True, "incs": [1, 2], "inplace": True}))
-        out.append(("pca_counts", {"n0": 3, "d": 2, "centre": False, "incs": [2, 1], "inplace": False}))
+        big = {"max_paths": 20000, "max_s": 3000}
+        out.append(("pca_counts", {"n0": 3, "d": 2, "centre": True, "incs": [1, 1], "inplace": True}, big))
+        out.append(("pca_counts", {"n0": 2, "d": 3, "centre": False, "incs": [1, 2], "inplace": True}, big))
+        out.append(("pca_counts", {"n0": 3, "d": 2, "centre": False, "incs": [2, 1, 1], "inplace": False}, big))
     out.append(("pca_model", {"n0": 3, "centre": True, "incs": [1]}))
+    out.append(("pca_degenerate", {"n0": 3, "d": 2, "m": 1}))
     return out
 
 
@@ -219,6 +247,14 @@ def _mutate(F, cfg):
         import menpo.model.pca as P
 
         F.patch(P, "ipca", bad_ipca)
+    elif mut == "precision_entry":
+        real_inc = G._increment_dense_precision
+
+        def bad_inc(*a, **k):
+            P, C = real_inc(*a, **k)
+            P[0, 0] = P[0, 0] * 2  # covariances right, assembled precision wrong
+            return P, C
+        F.patch(G, "_increment_dense_precision", bad_inc)
     else:
         raise KeyError(mut)
 
@@ -306,6 +342,35 @@ def _dense(p):
     return p.toarray() if hasattr(p, "toarray") else p
 
 
+def _eq_rational(F, ob, name, P, Q):
+    """P == Q entrywise for matrices of (possibly large) rational functions.  Entries that are structurally the
+    same canonical fraction are discharged on the spot; the others go to the solver as ONE conjunction over the
+    plain quotient terms (no cross-multiplication in Python, which explodes when the two sides differ)."""
+    if not F.sym:
+        ob.eq(name, P, Q)
+        return
+    import z3
+    from symx.core import Sym, SymB
+
+    P, Q = np.asarray(P, dtype=object), np.asarray(Q, dtype=object)
+    if P.shape != Q.shape:
+        ob.fail(name + ".shape", "%s vs %s" % (P.shape, Q.shape))
+        return
+    rest = []
+    for i in np.ndindex(*P.shape):
+        a, b = P[i], Q[i]
+        if not isinstance(a, Sym) and not isinstance(b, Sym):
+            ob.eq("%s%s" % (name, list(i)), a, b)
+            continue
+        a, b = Sym.of(a), Sym.of(b)
+        if a.n == b.n and ((a.d is None and b.d is None) or (a.d is not None and b.d is not None and a.d == b.d)):
+            ob.true("%s%s" % (name, list(i)), True)
+        else:
+            rest.append(a.t == b.t)
+    if rest:
+        ob.true(name + ".entries_not_identical_as_fractions", SymB(z3.And(*rest)))
+
+
 def _compare_gmrf(F, ob, name, inc, bat, sparse):
     ob.true(name + ".n_samples", inc.n_samples == bat.n_samples)
     ob.eq(name + ".mean_vector", inc.mean_vector, bat.mean_vector)
@@ -316,7 +381,28 @@ def _compare_gmrf(F, ob, name, inc, bat, sparse):
     ob.true(name + ".precision.kind", hasattr(inc.precision, "toarray") == bool(sparse))
     P, Q = _dense(inc.precision), _dense(bat.precision)
     ob.true(name + ".precision.shape", np.shape(P) == np.shape(Q) == (bat.n_features, bat.n_features))
-    ob.eq(name + ".precision", P, Q)
+    _eq_rational(F, ob, name + ".precision", P, Q)
+
+
+def _install_inverse_uf(F, G):
+    """symbolic mode, cfg inv="uf": menpo's _covariance_matrix_inverse becomes an UNINTERPRETED function of the
+    covariance (memoised on the canonical polynomial terms of its argument): equal covariances give the same
+    arbitrary matrix, different ones unrelated matrices.  Sound for equalities (the inverse IS a function of the
+    covariance) and it keeps the sums of rational functions in the precision assembly small."""
+    from harness.lapack import _key
+    from symx import core
+
+    def inverse(cov_mat, n_components):
+        c = core.ctx()
+        key = ("covinv", np.shape(cov_mat), _key(cov_mat), n_components)
+        if key not in c.memo:
+            a = np.empty(np.shape(cov_mat), dtype=object)
+            for i in np.ndindex(*a.shape):
+                a[i] = F.fresh("covinv")
+            c.memo[key] = a
+        return c.memo[key].copy()
+
+    F.patch(G, "_covariance_matrix_inverse", inverse)
 
 
 def _gmrf_parts(F, cfg):
@@ -333,17 +419,20 @@ def gmrf(F, ob, cfg):
     _mutate(F, cfg)
     if F.sym:
         F.patch(G, "bsr_matrix", _BSR)
+        if cfg.get("inv") == "uf":
+            _install_inverse_uf(F, G)
     graph = _graph(cfg["graph"])
     k = cfg["k"]
     parts = _gmrf_parts(F, cfg)
     n, nf = sum(parts), graph.n_vertices * k
     X = F.reals("x", (n, nf))
-    if cfg.get("conc0"):
-        # the initial batch is concrete (exact constants), the increments symbolic: keeps the 4x4 cofactor
-        # inverse of the covariance within reach
+    c0 = cfg.get("conc0", 0)
+    if c0:
+        # the first c0 samples of the initial batch are concrete (exact constants), everything else symbolic:
+        # keeps the cofactor inverses of the covariances (and their sums) within reach
         rs = np.random.RandomState(11)
         X = X.copy()
-        X[:parts[0]] = K.const(F, np.round(rs.uniform(-3, 3, (parts[0], nf)) * 4) / 4)
+        X[:c0] = K.const(F, np.round(rs.uniform(-3, 3, (c0, nf)) * 4) / 4)
     kw = dict(mode=cfg["mode"], sparse=cfg["sparse"], bias=cfg["bias"], dtype=np.float64)
     ch = _chunks(X, parts)
     inc = G.GMRFVectorModel(ch[0].copy(), graph, incremental=True, **kw)
@@ -362,7 +451,7 @@ def gmrf(F, ob, cfg):
     plain = G.GMRFVectorModel(X.copy(), graph, incremental=False, **kw)
     ob.true("plain.n_samples", inc.n_samples == plain.n_samples == n)
     ob.eq("plain.mean_vector", inc.mean_vector, plain.mean_vector)
-    ob.eq("plain.precision", _dense(inc.precision), _dense(plain.precision))
+    _eq_rational(F, ob, "plain.precision", _dense(inc.precision), _dense(plain.precision))
     ob.true("still_incremental", inc.is_incremental is True)
 
 
@@ -398,15 +487,21 @@ def gmrf_model(F, ob, cfg):
     ob.eq("mean_vector", inc.mean_vector, bat.mean_vector)
     ob.eq("mean().points", inc.mean().points, bat.mean().points)
     ob.eq("covariances", inc._covariance_matrices, bat._covariance_matrices)
-    ob.eq("precision", _dense(inc.precision), _dense(bat.precision))
+    _eq_rational(F, ob, "precision", _dense(inc.precision), _dense(bat.precision))
     ob.eq("mean_vector=oracle", inc.mean_vector, _mean(F, X))
 
 
 # ---------------------------------------------------------------------------------------------- PCA
 def _install_lapack_cuts(F):
-    """symbolic mode: eigh / qr / svd return ARBITRARY values of the right shapes (the sample count and the
-    mean do not depend on them); ordering as LAPACK guarantees it, which keeps the number of paths small"""
+    """symbolic mode: eigh / qr / svd of a symbolic matrix return ARBITRARY values of the right shapes (the
+    sample count and the mean do not depend on them).  What the stubs promise is what LAPACK guarantees for the
+    matrices menpo passes under the harness assumption that the data are not degenerate (two samples differ by
+    at least 0.5 in their first coordinate): eigenvalues of the Gram matrix ascending, non-negative, the largest
+    positive; singular values descending, non-negative, the largest >= 0.01 (||R||_F^2 >= sum of the retained
+    s_a^2 >= 0.125 / 16, so s_0^2 >= ||R||_F^2 / 4 stays above 1e-4 over the <= 3 increments used here).
+    Constant matrices (degenerate harness) go to real LAPACK."""
     from symx import core, npproxy
+    from symx.core import Sym
 
     def contract(cond):
         core.ctx().defined.append(core.bterm(cond))
@@ -417,30 +512,50 @@ def _install_lapack_cuts(F):
             a[i] = F.fresh(tag, -4, 4)
         return a
 
+    def concrete(A):
+        A = np.asarray(A, dtype=object)
+        if all((not isinstance(v, Sym)) or v.is_const() for v in A.ravel()):
+            return np.array([float(v) for v in A.ravel()], dtype=float).reshape(A.shape)
+        return None
+
+    def back(r):
+        return tuple(K.const(F, x) for x in r) if isinstance(r, tuple) else K.const(F, r)
+
     def eigh(C, *a, **k):
+        c = concrete(C)
+        if c is not None:
+            return back(tuple(np.linalg.eigh(c)))
         n = np.shape(C)[0]
         w = np.empty(n, dtype=object)
         for i in range(n):
-            w[i] = F.fresh("eigh_w", -64, 64)
+            w[i] = F.fresh("eigh_w", 0, 1024)
             if i:
                 contract(w[i] >= w[i - 1])
+        contract(w[n - 1] > 0)
         return w, fresh_mat("eigh_v", (n, n))
 
     def qr(A, mode="reduced"):
+        c = concrete(A)
+        if c is not None:
+            return back(tuple(np.linalg.qr(c, mode=mode)))
         if mode != "reduced":
-            raise NotImplementedError(mode)
+            raise core.Unsupported("qr mode %r" % (mode,))
         m, n = np.shape(A)
         kk = min(m, n)
         return fresh_mat("qr_q", (m, kk)), fresh_mat("qr_r", (kk, n))
 
     def svd(A, full_matrices=True, compute_uv=True, **k):
+        c = concrete(A)
+        if c is not None:
+            return back(np.linalg.svd(c, full_matrices=full_matrices, compute_uv=compute_uv))
         m, n = np.shape(A)
         kk = min(m, n)
         s = np.empty(kk, dtype=object)
         for i in range(kk):
-            s[i] = F.fresh("svd_s", 0, 64)
+            s[i] = F.fresh("svd_s", 0, 1024)
             if i:
                 contract(s[i] <= s[i - 1])
+        contract(s[0] >= 0.01)
         if not compute_uv:
             return s
         if full_matrices:
@@ -460,29 +575,36 @@ def _all_zero(F, v):
     return True
 
 
+def _not_degenerate(F, X):
+    """precondition of the stub contracts: the initial batch has visible spread (zero / tiny variance is the
+    subject of pca_degenerate)"""
+    F.assume(X[0, 0] - X[1, 0] >= 0.5)
+
+
 def _pca_run(F, ob, cfg, build, feed, X, parts, mean_of):
     centre = cfg["centre"]
     ch = _chunks(X, parts)
     model = build(ch[0])
     at = parts[0]
+    d = X.shape[1]
     ob.true("init.n_samples", model.n_samples == at)
-    ob.eq("init.mean", mean_of(model), _mean(F, X[:at]) if centre else np.zeros(X.shape[1]))
+    ob.eq("init.mean", mean_of(model), _mean(F, X[:at]) if centre else np.zeros(d))
     suffix = ""
     for i, B in enumerate(ch[1:]):
         # menpo's ipca treats a model whose mean is EXACTLY zero as uncentred; those paths get their own
-        # obligation names so that the finding is reported separately from the generic case
+        # obligation names so that this finding is reported separately from the generic case
         if centre and _all_zero(F, mean_of(model)):
             suffix = ".after_exactly_zero_mean"
         feed(model, B)
         at += B.shape[0]
-        want = _mean(F, X[:at]) if centre else np.zeros(X.shape[1])
+        want = _mean(F, X[:at]) if centre else np.zeros(d)
         ob.true("inc%d.n_samples%s" % (i, suffix), model.n_samples == at)
-        ob.eq("inc%d.mean%s" % (i, suffix), mean_of(model), want)
-        ob.true("inc%d.mean.shape" % i, np.shape(mean_of(model)) == (X.shape[1],))
-        ob.true("inc%d.components.width" % i, np.shape(model.components)[1:] == (X.shape[1],))
-        ob.true("inc%d.n_eigenvalues=n_components" % i, len(model.eigenvalues) == model.n_active_components)
+        # menpo weights the two means with the FLOATS n_a/n and n_b/n (2/3 is not a float), hence a tolerance
+        ob.eq("inc%d.mean%s" % (i, suffix), mean_of(model), want, tol=PCA_TOL)
+        ob.true("inc%d.mean.shape" % i, np.shape(mean_of(model)) == (d,))
+        ob.true("inc%d.components.width" % i, np.shape(model.components)[1:] == (d,))
         ob.true("inc%d.centred_flag" % i, model.centred is centre)
-    return model
+    return model, suffix
 
 
 def pca_counts(F, ob, cfg):
@@ -495,6 +617,7 @@ def pca_counts(F, ob, cfg):
     n0, d, centre = cfg["n0"], cfg["d"], cfg["centre"]
     parts = [n0] + list(cfg["incs"])
     X = F.reals("x", (sum(parts), d))
+    _not_degenerate(F, X)
     snap = K.snapshot(X)
 
     def build(A):
@@ -506,13 +629,16 @@ def pca_counts(F, ob, cfg):
         else:
             model.increment(B.copy())
 
-    model = _pca_run(F, ob, cfg, build, feed, X, parts, lambda m: m._mean)
+    model, sfx = _pca_run(F, ob, cfg, build, feed, X, parts, lambda m: m._mean)
     K.same_terms(F, ob, "data_untouched", snap, X)
     if not F.sym:
         # replay only: the batch model itself (real LAPACK) for the clause that is checked
         bat = PCAVectorModel(X.copy(), centre=centre, inplace=False)
         ob.true("batch.n_samples", bat.n_samples == model.n_samples)
-        ob.eq("batch.mean", model._mean, bat._mean)
+        ob.eq("batch.mean" + sfx, model._mean, bat._mean)
+
+
+PCA_TOL = 1e-9
 
 
 def pca_model(F, ob, cfg):
@@ -525,10 +651,11 @@ def pca_model(F, ob, cfg):
         _install_lapack_cuts(F)
     n0, centre = cfg["n0"], cfg["centre"]
     parts = [n0] + list(cfg["incs"])
-    X = F.reals("x", (sum(parts), 4))
+    X = F.reals("x", (sum(parts), 2))
+    _not_degenerate(F, X)
 
     def clouds(rows):
-        return [PointCloud(np.array(r, dtype=X.dtype).reshape(2, 2), copy=False) for r in rows]
+        return [PointCloud(np.array(r, dtype=X.dtype).reshape(1, 2), copy=False) for r in rows]
 
     def build(A):
         return PCAModel(clouds(A), centre=centre)
@@ -536,5 +663,34 @@ def pca_model(F, ob, cfg):
     def feed(model, B):
         model.increment(clouds(B))
 
-    model = _pca_run(F, ob, cfg, build, feed, X, parts, lambda m: m.mean_vector)
-    ob.eq("mean().points", model.mean().points, (_mean(F, X) if centre else np.zeros(4)).reshape(2, 2))
+    model, sfx = _pca_run(F, ob, cfg, build, feed, X, parts, lambda m: m.mean_vector)
+    ob.eq("mean().points" + sfx, model.mean().points, (_mean(F, X) if centre else np.zeros(2)).reshape(1, 2), tol=PCA_TOL)
+    if not F.sym:
+        bat = PCAModel(clouds(X), centre=centre)
+        ob.true("batch.n_samples", bat.n_samples == model.n_samples)
+        ob.eq("batch.mean" + sfx, model.mean().points, bat.mean().points)
+
+
+def pca_degenerate(F, ob, cfg):
+    """all samples equal to one symbolic vector (zero variance): the batch model exists (no components, mean = the
+    vector); the increments must give the same count and mean"""
+    from menpo.model import PCAVectorModel
+
+    if F.sym:
+        _install_lapack_cuts(F)
+    n0, d, m = cfg["n0"], cfg["d"], cfg["m"]
+    v = F.reals("v", (d,), 0.5, 8)  # away from zero: the exactly-zero-mean finding is a different one
+    A = np.array([v] * n0, dtype=v.dtype)
+    B = np.array([v] * m, dtype=v.dtype)
+    bat = PCAVectorModel(np.vstack([A, B]).copy(), inplace=False)
+    ob.true("batch.n_samples", bat.n_samples == n0 + m)
+    ob.eq("batch.mean", bat._mean, v)
+    model = PCAVectorModel(A.copy(), inplace=False)
+    try:
+        model.increment(B.copy())
+    except ValueError as e:
+        ob.fail("zero_variance.increment_raises", "%s: %s" % (type(e).__name__, str(e)[:120]))
+        return
+    ob.true("inc.n_samples", model.n_samples == n0 + m)
+    ob.eq("inc.mean", model._mean, v)
+    ob.true("inc.n_components", model.n_components == bat.n_components)
